@@ -157,11 +157,16 @@ def _collect_c10(mb, run, res, stats, covered):
         key = f"unbound:{p['sem']}/{p['dir']}/{e['dir']}-event/{'user' if side == 0 else 'component'}"
         faults[key] = faults.get(key, 0) + 1
         covered.add((side, ev, cl))
+    elif run.get('reentryfc'):
+        faults['log_sink_calls_FinalConstruct_during_set-up'] = faults.get('log_sink_calls_FinalConstruct_during_set-up', 0) + 1
     elif run.get('reentry'):
         faults['log_sink_re-enters_the_shell_and_registers_a_client'] = faults.get('log_sink_re-enters_the_shell_and_registers_a_client', 0) + 1
     else:
         probes['all_bound_world'] = probes.get('all_bound_world', 0) + 1
     for r in res.records:
+        if r['kind'] == 'reentrant_fc':
+            k = f"FinalConstruct_called_by_log_sink:{r['result']}"
+            probes[k] = probes.get(k, 0) + 1
         if r['kind'] == 'monitor_registered':
             k = f"client_registered_by_log_sink:{r['result']}:{ {'0': 'before', '1': 'during', '2': 'after', '3': 'after-failed'}[r['fcstate']] }-FinalConstruct"
             probes[k] = probes.get(k, 0) + 1
